@@ -57,6 +57,10 @@ Ops_RMeth == {"stop", "ret", "retdrop", "keepret"}
 Ops_FTop == {"acreate", "mkfwd", "fwd", "call", "kill", "owndrop", "run", "dropstakker"}
 Ops_FBody == {"fwd", "call"}
 Ops_FMeth == {"stop", "fwd", "call"}
+\* kill!-focused: kills queued through an extra owner, racing with calls, owner drops and immediate kills
+Ops_KTop == {"acreate", "dkill", "kill", "call", "owndrop", "run", "zombie"}
+Ops_KBody == {"dkill", "call"}
+Ops_KMeth == {"stop", "fail", "dkill"}
 Ops_ATopY == Ops_ATopAll \cup {"query"}
 Ops_ABodyY == Ops_ABody \cup {"query"}
 =============================================================================
